@@ -24,6 +24,8 @@ import (
 
 func init() {
 	components["e2e"] = e2eComponent
+	components["e2ebig"] = e2eBigComponent
+	components["e2eslow"] = e2eSlowComponent
 }
 
 const labNet = uint32(10<<24 | 0<<16 | 0<<8 | 0) // 10.0.0.0/24 lives on veth0
@@ -48,7 +50,7 @@ type e2eCase struct {
 	tun    bool // on the tun device (no MAC address: sx puts itself in vpn mode, frames are bare IP datagrams)
 	oneCPU bool // the process sees one CPU (runtime.NumCPU() == 1)
 	split  int  // 0: draw {-p | --ports-file}; 1: -p; 2: --ports-file; 3: the list split between -p and --ports-file
-	noTag  bool // do not add to the class (fixed-shape cases)
+	quiet  bool // no reply flood during a multi-chunk run
 }
 
 // rawView decodes one bare IPv4 datagram captured on the tun device into the gen view `4:<dst>,<port>,-,-`
@@ -419,6 +421,113 @@ func e2eComponent(r *hx.Run) {
 	}
 }
 
+// e2ebig — wide AND long: more than 200 port ranges (several engine runs over ONE generator) on a subnet of 128 or
+// more addresses, so that every engine run makes hundreds of complete address passes and the passes of a later
+// run start from whatever state the earlier runs left behind (C04: every pass is a permutation of the subnet,
+// whatever happened before it; C01: over all chunks).  Tens of thousands of frames per run.
+func e2eBigComponent(r *hx.Run) {
+	if !enterNetlab() {
+		return
+	}
+	r.Rule = "case = one run of the real sx binary (tcp flavour or udp) on a /25 or /24 with 201..405 port ranges (2-3 engine runs, 26 000..100 000 probes), optional exclusions, on the veth pair; observed = sorted multiset of (destination, port, destination MAC) of the frames on the wire; compared with the model over all chunks and with the Spec reference; non-trivial class = (sub-command, subnet size, number of chunks, exclusion)"
+	e := newE2EEnv(r, false)
+	defer e.close()
+	rng := r.Rng
+	n := 1
+	if r.Tier == "thorough" {
+		n = 5
+	}
+	subs := [][]string{{"tcp", "syn"}, {"udp"}, {"tcp", "fin"}, {"tcp"}, {"tcp", "--flags", "ack"}}
+	for i := 0; i < n; i++ {
+		sub := subs[rng.Intn(len(subs))]
+		ones := 25
+		base := labNet | uint32(rng.Intn(2))<<7
+		nr := 201 + rng.Intn(5)
+		if r.Tier == "thorough" && i%2 == 1 {
+			if rng.Intn(2) == 0 {
+				ones, base = 24, labNet
+			} else {
+				nr = 401 + rng.Intn(5)
+			}
+		}
+		var ps []string
+		lo := 1000 + rng.Intn(30000)
+		for k := 0; k < nr; k++ {
+			lo += 1 + rng.Intn(3)
+			ps = append(ps, fmt.Sprintf("%d-%d", lo, lo))
+		}
+		kind := "pkt-tcp"
+		if sub[0] == "udp" {
+			kind = "pkt-udp"
+		}
+		c := e2eCase{kind: kind, sub: sub, src: fmt.Sprintf("net:%d/%d", base, ones), ports: strings.Join(ps, ","),
+			excl: e.randExcl(subnetAddrs(base, ones)), quiet: true}
+		c.oneCPU = e.oneCPU(c.sub)
+		e.run(c)
+	}
+}
+
+// e2eslow — a rate limit below one packet per second on a target of two or three probes: every probe still
+// leaves (C07: a finished, uncancelled run has written everything), whatever is derived from the rate.
+func e2eSlowComponent(r *hx.Run) {
+	if !enterNetlab() {
+		return
+	}
+	r.Rule = "case = one run of the real sx binary (tcp syn, udp, icmp, arp; veth pair or tun device) with --rate N/W where W/N is between 1.05 s and 1.3 s per packet, on a target of 2-3 probes; observed = sorted multiset of (destination, port, destination MAC) of the frames on the wire; compared with the model and with the Spec reference; non-trivial class = (sub-command, link, rate form)"
+	e := newE2EEnv(r, true)
+	defer e.close()
+	rng := r.Rng
+	type sc struct {
+		kind string
+		sub  []string
+	}
+	all := []sc{{"pkt-udp", []string{"udp"}}, {"pkt-tcp", []string{"tcp", "syn"}}, {"pkt-icmp", []string{"icmp"}}, {"pkt-arp", []string{"arp"}}}
+	rounds := 1
+	if r.Tier == "thorough" {
+		rounds = 4
+	}
+	for it := 0; it < rounds; it++ {
+		for _, s := range all {
+			// the same budget per packet written three ways: N/Ws with W > N seconds, 1/<ms>, <per minute>/m
+			var rate string
+			ms := 1050 + rng.Intn(200)
+			switch rng.Intn(3) {
+			case 0:
+				rate = fmt.Sprintf("1/%dms", ms)
+			case 1:
+				rate = fmt.Sprintf("%d/m", 60000/ms)
+			default:
+				rate = fmt.Sprintf("10/%ds", 10*ms/1000+1)
+			}
+			c := e2eCase{kind: s.kind, sub: s.sub, ports: "-", excl: "none", extra: []string{"--rate", rate}}
+			c.tun = s.kind != "pkt-arp" && rng.Intn(3) == 0
+			net := labNet
+			if c.tun {
+				net = tunNet
+			}
+			base := (net | uint32(16+rng.Intn(200))) &^ 1
+			probes := 2
+			if r.Tier == "thorough" {
+				probes += rng.Intn(2)
+			}
+			switch s.kind {
+			case "pkt-icmp", "pkt-arp":
+				if probes == 3 { // three addresses of a /30, the fourth excluded
+					base &^= 3
+					c.src, c.excl = fmt.Sprintf("net:%d/30", base), fmt.Sprintf("%d/32", base+uint32(rng.Intn(4)))
+				} else {
+					c.src = fmt.Sprintf("net:%d/31", base)
+				}
+			default:
+				p := 1 + rng.Intn(65000)
+				c.src, c.ports = fmt.Sprintf("net:%d/32", base), fmt.Sprintf("%d-%d", p, p+probes-1)
+			}
+			c.oneCPU = e.oneCPU(c.sub)
+			e.run(c)
+		}
+	}
+}
+
 // run makes one case: builds the command line and its files, runs the real binary, emits the `gen` line
 func (e *e2eEnv) run(c e2eCase) {
 	r, rng, lab := e.r, e.r.Rng, e.lab
@@ -569,7 +678,7 @@ func (e *e2eEnv) run(c e2eCase) {
 				e.tun.take()
 			}
 			var res sxRun
-			flood := !c.tun && c.kind == "pkt-tcp" && len(c.sub) > 1 && c.sub[1] == "syn" && strings.Count(c.ports, ",") >= 200 && !c.noTag
+			flood := !c.tun && c.kind == "pkt-tcp" && len(c.sub) > 1 && c.sub[1] == "syn" && strings.Count(c.ports, ",") >= 200 && !c.quiet
 			if flood {
 				// several engine runs (port chunks) WHILE the target keeps answering: replies to the first probe
 				// are injected all the way through the chunk boundaries (a scanned host with an open port does
